@@ -164,3 +164,16 @@ def search(rep: C.Report, tier: str, broken):
             for b_ in bad:
                 rep.violation(f"boundary constants: {b_[0]}", dict(info, c1=c1, c2=c2, velocityMid=vmid, detail=b_[1:]),
                               finding_key=f"C02:constants:{b_[0]}")
+    # ---- the real Thermodynamics class with template extrapolation switched on (setExtrapolate, as WallGoManager does) and a low-T phase traced
+    # only 6 % beyond Tn: fast hybrids and slow detonations heat the plasma behind the wall beyond the traced range (T- > TMaxLowT), where e, w, p
+    # and the sound speed are those of the extrapolated equation of state -- which must still be ONE equation of state (e = T dp/dT - p)
+    import models as _models
+    thx, _mx, _ix = _models.make_thermo("toy1", {}, TnFrac=0.6, tminFrac=0.5, tmaxFrac=1.06)
+    hx = HC.make_hydro(thx)
+    for dv in ((-0.03, -0.015, -0.008, -0.003, 0.004, 0.02) if tier == "quick" else (-0.06, -0.03, -0.015, -0.008, -0.003, 0.002, 0.004, 0.01, 0.02, 0.05)):
+        vw = hx.vJ + dv
+        if not hx.vMin < vw < 0.99:
+            continue
+        info = check_matching(rep, "toy1 (traced, template extrapolation on, TMaxLowT = 1.06 Tn)", thx, hx, vw, tier)
+        if info and info.get("Tm") is not None:
+            rep.count("T- beyond the traced low-T range" if info["Tm"] > thx.TMaxLowT else "T- inside the traced low-T range")
